@@ -3,6 +3,7 @@ import LlirProofs.Props.C06
 import LlirModel.CallSite
 import LlirProofs.TyParseMain
 import LlirProofs.Core2Mod
+import LlirModel.Generated.Facts
 /-! # C03 — IR built through the constructors prints to valid, faithful LLVM assembly (property theorems only)
 
 PARTIAL: the printing/re-parsing theorem covers constructor images inside M-Core (modules built with
@@ -34,6 +35,15 @@ theorem constructor_accepts_well_typed (k : Typing.Kind) (ops : List Types.Ty) (
 theorem constructed_prints_faithfully2 (useHex : Int → Bool) (m : Core2.Mod) (h : Core2.WF m) :
     Core2.translateTok (Core2.printTok useHex m) = some ⟨Core2.sortDefs m.typedefs, m.globals⟩ :=
   Core2.core2_roundtrip useHex m h
+
+/-! ## the block builder methods are the free constructors -/
+
+/-- Every `(*ir.Block).NewX` method (the fact is REGENERATED from the source on every run) is the pure delegation
+    `v := NewX(params…); insert v into the block; return v`: the parameters reach the free constructor unchanged and
+    in order, so what C06 and the printing theorems say about the constructors holds for the builder methods too. -/
+theorem block_builders_delegate : Generated.Facts.blockBuilders.all (fun r => r.2) = true := by decide +kernel
+
+theorem block_builders_counted : Generated.Facts.blockBuilders.length ≥ 65 := by decide +kernel
 
 /-! ## call sites denote the callee they were constructed with -/
 
